@@ -1,5 +1,8 @@
 """C10 — stdlib array, set and higher-order functions match their reference definitions.
 
+Part More (coq/theories/C10/ModelMore.v ...): 15 builtins over arrays of LAZY elements, see gen_lazy_cases /
+correspond_lazy below.
+
 Theorems: coq/theories/C10 (the merge loops of std.setUnion/setInter/setDiff, the binary search
 of std.setMember, uniq, the sort-type classifier + stable sort, the flattenArrays tree, the join
 loop and std.remove refine the documented definitions, for ALL lists and EVERY key function).
@@ -478,6 +481,278 @@ def gen_cases(run, binary_unused=None):
     return cases
 
 
+# ------------------------------------------------------------------ part "More": arrays of lazy elements
+# (coq/theories/C10/ModelMore.v).  An element is a value or ERR (`error "e"`: forcing it fails); a case is
+# one call of LSIG; kinds: l lazy array, v value, h lfn2, f fn, k optional key function,
+# E onEmpty ("absent" | ERR | value)
+IMPORTS_MORE = ("From Coq Require Import List ZArith NArith.\nFrom JrV Require Import C10.Model C10.ModelMore.\n"
+                "Import ListNotations.\n")
+ERR = ("err",)
+LFN2_JS = {
+    "L2Fst": "function(p, q) p",
+    "L2Snd": "function(p, q) q",
+    "L2Add": 'function(p, q) if std.isNumber(p) && std.isNumber(q) then p + q else error "add"',
+    "L2Err": 'function(p, q) error "boom"',
+}
+LSIG = {
+    "LAny": ("any", "l"), "LAll": ("all", "l"), "LCount": ("count", "lv"), "LMember": ("member", "lv"),
+    "LContains": ("contains", "lv"), "LFind": ("find", "vl"), "LRemove": ("remove", "lv"),
+    "LFoldl": ("foldl", "hlv"), "LFoldr": ("foldr", "hlv"), "LMap": ("map", "fl"), "LReverse": ("reverse", "l"),
+    "LMinArray": ("minArray", "lkE"), "LMaxArray": ("maxArray", "lkE"),
+    "LStartsWith": ("startsWith", "ll"), "LEndsWith": ("endsWith", "ll"),
+}
+L_ARRAY_RESULT = ("LRemove", "LMap", "LReverse")
+KNOWN_IDS = {1: "C10-member-remove-stop-at-first-match", 2: "C10-callback-element-forced",
+             3: "C10-minarray-first-key-not-compared"}
+
+
+def le_js(e):
+    return 'error "e"' if e == ERR else v_js(e)
+
+
+def le_coq(e):
+    return "None" if e == ERR else f"(Some {v_coq(e)})"
+
+
+def ll_js(l):
+    return "[" + ", ".join(le_js(e) for e in l) + "]"
+
+
+def ll_coq(l):
+    return "[" + "; ".join(le_coq(e) for e in l) + "]"
+
+
+def lcall_coq(c):
+    parts = []
+    for kind, a in zip(LSIG[c[0]][1], c[1:]):
+        if kind == "l":
+            parts.append(ll_coq(a))
+        elif kind == "v":
+            parts.append(v_coq(a))
+        elif kind in "hf":
+            parts.append(a)
+        elif kind == "k":
+            parts.append(k_coq(a))
+        elif kind == "E":
+            parts.append("None" if a == "absent" else f"(Some {le_coq(a)})")
+    return "(" + c[0] + " " + " ".join(parts) + ")"
+
+
+def lcall_js(c):
+    name, sig = LSIG[c[0]]
+    parts = []
+    for kind, a in zip(sig, c[1:]):
+        if kind == "l":
+            parts.append(ll_js(a))
+        elif kind == "v":
+            parts.append(v_js(a))
+        elif kind == "h":
+            parts.append(LFN2_JS[a])
+        elif kind == "f":
+            parts.append(FN_JS[a])
+        elif kind == "k":
+            if a is not None:
+                parts.append("keyF=" + FN_JS[a])
+        elif kind == "E":
+            if a != "absent":
+                parts.append("onEmpty=" + le_js(a))
+    return f"std.{name}(" + ", ".join(parts) + ")"
+
+
+def term_lout(t):
+    """Coq [option lout] -> ('err',) | ('ok', canon) | ('ok', ('A', [('ok', canon) | ('err',) ...]))"""
+    if t == "None":
+        return ("err",)
+    assert isinstance(t, core.App) and t.name == "Some", t
+    o = t.args[0]
+    if o.name == "LV":
+        return ("ok", canon_val(term_val(o.args[0])))
+    if o.name == "LA":
+        return ("ok", ("A", [("err",) if e == "None" else ("ok", canon_val(term_val(e.args[0]))) for e in o.args[0]]))
+    raise ValueError(o)
+
+
+def gen_lazy_cases(run):
+    thorough = run.tier == "thorough"
+    rng = run.rng.fork("gen-lazy")
+    mul = 6 if thorough else 1
+    L = 6 if thorough else 4
+    cases = []
+    add = cases.append
+    E3 = all_arrays([1, 2, ERR], 3)
+    E2 = all_arrays([1, 2, ERR], 2)
+    pools = [[1, 2, ERR], [1, "a", [1], ERR], [0, NEGZ, 1, ERR], [1, 2, 3], ["a", "b", ERR, "a"],
+             [[1], [1, 2], [], ERR], [None, True, OBJ, 1, ERR]]
+
+    def larr(maxlen=None, pool=None):
+        pool = pool if pool is not None else rng.choice(pools)
+        return [rng.choice(pool) for _ in range(rng.below((maxlen or L) + 1))]
+
+    # any / all: every array over {true, false, failing, non-boolean} up to length 3 (4 thorough)
+    for arr in all_arrays([True, False, ERR, 1], 4 if thorough else 3):
+        add(("LAny", arr))
+        add(("LAll", arr))
+    # scans with equality: every array over {1, 2, failing} up to length 3, looking for 1
+    for arr in E3:
+        for fn in ("LCount", "LMember", "LContains", "LRemove"):
+            add((fn, arr, 1))
+        add(("LFind", 1, arr))
+        add(("LReverse", arr))
+    for _ in range(120 * mul):
+        pool = rng.choice(pools)
+        arr = larr(pool=pool)
+        x = rng.choice([e for e in pool if e != ERR] + [rng.choice(ALPHABET)])
+        fn = rng.choice(["LCount", "LMember", "LContains", "LRemove", "LFind"])
+        add((fn, x, arr) if fn == "LFind" else (fn, arr, x))
+    # folds: every function of the pool on every array over {1, 2, failing} up to length 3
+    for arr in E3:
+        for f in LFN2_JS:
+            add(("LFoldl", f, arr, 0))
+            add(("LFoldr", f, arr, 0))
+    for _ in range(60 * mul):
+        add((rng.choice(["LFoldl", "LFoldr"]), rng.choice(list(LFN2_JS)), larr(), rng.choice([0, 5, "z", None])))
+    for arr in E2 + [larr() for _ in range(20 * mul)]:
+        for f in ("FConst", "FId", "FNeg", "FErr", "FTrue", "FLen"):
+            add(("LMap", f, arr))
+    # minArray / maxArray: ties (the first extreme element wins), failing elements, onEmpty, keys that do not compare
+    for arr in E3:
+        for fn in ("LMinArray", "LMaxArray"):
+            add((fn, arr, None, rng.choice(["absent", ERR, 5])))
+    for oe in ("absent", ERR, 5, None):
+        for k in (None, "FNeg", "FErr", "FConst"):
+            add(("LMinArray", [], k, oe))
+            add(("LMaxArray", [], k, oe))
+    tops = [[1, 2, 3, 2, 1, 3], [0, NEGZ, 1, -1], ["a", "b", "ab", "", "b"], [[1], [1, 2], [0], [], [1, 1], [2]],
+            [None, True, OBJ, 1, "a"], [1, 2, ERR], [[1], [0, 5], ERR, [0]]]
+    for _ in range(250 * mul):
+        pool = rng.choice(tops)
+        arr = [rng.choice(pool) for _ in range(rng.below(L + 2))]
+        k = rng.choice([None, None, "FId", "FNeg", "FConst", "FErr", "FLen", "FFirst", "FMod2", "FToStr"])
+        add((rng.choice(["LMinArray", "LMaxArray"]), arr, k, rng.choice(["absent", "absent", ERR, 5])))
+    for v in (None, True, False, OBJ, 1, "a", [1], [None], ERR):      # one element: nothing to compare with but itself
+        for k in (None, "FNeg", "FConst", "FLen", "FWrap"):
+            add(("LMinArray", [v], k, "absent"))
+            add(("LMaxArray", [v], k, "absent"))
+    # startsWith / endsWith on arrays: every pair up to length 2, random longer pairs
+    for a in E2:
+        for b in E2:
+            add(("LStartsWith", a, b))
+            add(("LEndsWith", a, b))
+    for _ in range(150 * mul):
+        pool = rng.choice(pools[:4])
+        a = larr(pool=pool)
+        if rng.chance(0.6) and a:       # b = a prefix / suffix of a, possibly with one element changed
+            n = rng.below(len(a) + 1)
+            fn = rng.choice(["LStartsWith", "LEndsWith"])
+            b = list(a[:n] if fn == "LStartsWith" else a[len(a) - n:])
+            if b and rng.chance(0.4):
+                b[rng.below(len(b))] = rng.choice(pool)
+        else:
+            fn = rng.choice(["LStartsWith", "LEndsWith"])
+            b = larr(pool=pool)
+        add((fn, a, b))
+    return cases
+
+
+def correspond_lazy(run, binary, cases):
+    failures, model_diffs = [], []
+    seen, uniq = set(), []
+    for c in cases:
+        key = lcall_js(c)
+        if key not in seen:
+            seen.add(key)
+            uniq.append(c)
+    cases = uniq
+    run.log(f"{len(cases)} distinct calls on lazy arrays")
+    groups = [cases[i:i + MODEL_BATCH] for i in range(0, len(cases), MODEL_BATCH)]
+    res = core.coq_eval(IMPORTS_MORE, ["[" + "; ".join(f"lrun_case {lcall_coq(c)}" for c in g) + "]" for g in groups])
+    model = []
+    for g, r in zip(groups, res):
+        if isinstance(r, list) and len(r) == len(g):
+            model.extend(r)
+        else:
+            model.extend(core.coq_eval(IMPORTS_MORE, [f"lrun_case {lcall_coq(c)}" for c in g]))
+    # code: one request per scalar call; an array result is observed by its length and by each element
+    plan, reqs = [], []
+    for c, m in zip(cases, model):
+        js = lcall_js(c)
+        if isinstance(m, tuple) and m and m[0] == "ERROR":
+            plan.append(None)
+            continue
+        spec, impl = term_lout(m[0]), term_lout(m[1])
+        if c[0] in L_ARRAY_RESULT:
+            n = max([len(o[1][1]) for o in (spec, impl) if o[0] == "ok"] + [0])
+            plan.append((len(reqs), n))
+            reqs.append({"code": f"std.length({js})"})
+            reqs.extend({"code": f"({js})[{i}]"} for i in range(n))
+        else:
+            plan.append((len(reqs), None))
+            reqs.append({"code": js})
+    SEQ = 40
+    packed = [{"seq": reqs[i:i + SEQ]} for i in range(0, len(reqs), SEQ)]
+    outs = []
+    for r in core.run_harness(binary, "eval", packed):
+        got = r.get("seq") if isinstance(r, dict) else None
+        outs.extend(got if isinstance(got, list) else [r])
+    if len(outs) != len(reqs):
+        run.obligation("harness.lazy", False, f"{len(outs)} answers for {len(reqs)} requests")
+        return failures, model_diffs
+    run.count("harness:lazy-requests", len(reqs))
+    for c, m, pl in zip(cases, model, plan):
+        js = lcall_js(c)
+        if pl is None:
+            run.obligation("model.eval", False, f"{lcall_coq(c)[:200]}: {str(m[1])[:300]}")
+            continue
+        spec, impl, known = term_lout(m[0]), term_lout(m[1]), int(m[2])
+        at, n = pl
+        if n is None:
+            got = code_out(outs[at])
+        else:
+            ln = code_out(outs[at])
+            if ln[0] != "ok":
+                got = ln
+            else:
+                want = core.float_to_bits(float(n))
+                if ln[1] != ("n", want):
+                    got = ("ok", ("A-length", ln[1]))
+                else:
+                    els = [code_out(o) for o in outs[at + 1:at + 1 + n]]
+                    crash = [e for e in els if e[0] == "crash"]
+                    got = crash[0] if crash else ("ok", ("A", els))
+        nfail = sum(1 for kind, a in zip(LSIG[c[0]][1], c[1:]) if kind == "l" for e in a if e == ERR)
+        nlen = max(len(a) for kind, a in zip(LSIG[c[0]][1], c[1:]) if kind == "l")
+        run.note_case(js, nlen >= 2)
+        run.count("fn:" + LSIG[c[0]][0] + "(lazy)")
+        run.count("lazy:failing-elements=" + ("0" if nfail == 0 else "1" if nfail == 1 else "2+"))
+        run.count("lazy:len0" if nlen == 0 else "lazy:len1" if nlen == 1 else "lazy:len2+")
+        run.count("lazy:known-class=" + str(known))
+        run.count("outcome:" + ("error" if spec == ("err",) else "value"))
+        case = {"jsonnet": js, "model_call": lcall_coq(c)}
+
+        def fail(what, expected, **kw):
+            d = {"case": case, "summary": f"C10 {what}: {js[:220]}", "what": what,
+                 "expected": repr(expected)[:400], "got": repr(got)[:400]}
+            d.update(kw)
+            failures.append(d)
+
+        if got[0] == "crash":
+            fail("the call panicked / aborted instead of returning a value or an error", spec)
+        elif known == 0 or impl == spec:
+            if got != spec:
+                fail("result differs from the documented definition", spec)
+        elif got == impl:
+            fail("known deviation from the documented definition", spec, known=KNOWN_IDS[known])
+        elif got == spec:
+            model_diffs.append({"case": case, "model": repr(impl)[:300], "code": repr(got)[:300],
+                                "note": f"known finding {KNOWN_IDS[known]} no longer reproduces: the code now "
+                                        "follows the definition here; the impl-model and the finding are stale"})
+        else:
+            fail("result differs from the documented definition and from the known deviation", spec)
+        if len(run.samples) < 14 and nfail and run.evaluations % 211 == 0:
+            run.samples.append({"jsonnet": js, "model_call": lcall_coq(c), "spec": repr(spec)[:200]})
+    return failures, model_diffs
+
+
 # ------------------------------------------------------------------ the check
 MODEL_BATCH = 20
 
@@ -595,6 +870,8 @@ def check(run, terrs):
         run.obligation("harness.build", False, err)
         return core.conclude(run, False, err, [], [])
     failures, model_diffs = correspond(run, binary, gen_cases(run))
+    f2, d2 = correspond_lazy(run, binary, gen_lazy_cases(run))
+    failures, model_diffs = failures + f2, model_diffs + d2
     run.trusted = TRUSTED
     run.assumptions = ASSUMPTIONS
     return core.conclude(
@@ -614,7 +891,14 @@ def search(run, binary):
     run.rng.fork("search").shuffle(cases)      # every family stays represented under the cap
     cases = cases[:25000]
     f, _ = correspond(run, binary, cases)
-    return f
+    old = run.tier
+    run.tier = "thorough"
+    try:
+        lazy = gen_lazy_cases(run)
+    finally:
+        run.tier = old
+    f2, _ = correspond_lazy(run, binary, lazy)
+    return f + f2
 
 
 def replay(run, data):
@@ -638,7 +922,12 @@ RULE = ("one case = one call std.<f>(args) of the 35 functions named by the prop
         "SPEC's std.set and all pairs per key function; index arguments -3..len+3; key / predicate / map / fold "
         "functions from a pool of 18+8; arrays of 21..100 elements for the sort paths; distinct = distinct "
         "Jsonnet call text; non-trivial = an array/string argument of length >= 2 (or range/repeat/makeArray/"
-        "flattenDeepArray/deepJoin)")
+        "flattenDeepArray/deepJoin); PART MORE: one case = one call of any/all/count/member/contains/find/remove/"
+        "foldl/foldr/map/reverse/minArray/maxArray/startsWith/endsWith on arrays whose elements may be `error`: "
+        "exhaustive to length 3 over {1, 2, failing} (any/all: {true, false, failing, 1}), all pairs to length 2 for "
+        "startsWith/endsWith, random arrays to length 4 (thorough 6) over 7 pools, ties and incomparable first keys "
+        "for minArray/maxArray with 9 key functions and onEmpty absent/failing/value; an array result is observed "
+        "by std.length and element by element; non-trivial = an array of length >= 2")
 TRUSTED = ["Coq 8.16.1 kernel incl. vm_compute (no native_compute)",
            "no axioms (all C10 theorems closed under the global context)",
            "SPEC = my reading of the std.jsonnet reference definitions (written from memory; network sealed)",
@@ -649,7 +938,10 @@ TRUSTED = ["Coq 8.16.1 kernel incl. vm_compute (no native_compute)",
            "IEEE division of std.avg done by Python on the exact quotient the model returns"]
 ASSUMPTIONS = ["impl-model transliterates sets.rs / sort.rs / arrays.rs loops; tie = differential run on every check",
                "numbers in cases are small integers (number equality / comparison semantics are C09's)",
-               "values are fully evaluated (no erroring array elements): laziness is C03's",
+               "part More: an element is a value or a failure (which elements are forced is judged; sharing and "
+               "evaluation counts are C03's); everywhere else values are fully evaluated",
+               "part More judges a call inside a known class (Coq: lknown) against the impl-model; if the code "
+               "follows the definition there, the finding is stale and the check fails",
                "calls whose outcome the documentation leaves open (non-set arguments of set functions, key "
                "functions undefined on an element, sums over strings, null from an array flatMap function) are "
                "compared with the impl-model only"]
